@@ -228,6 +228,14 @@ def run_shard(desc, ctx):
                 idx += 1
                 if idx % ns == sh:
                     run_case({'kind': 'program', 'backend': be, 'dtype': dt, 'program': prog, 'rows': 'std'}, ctx)
+    # half-precision recordings (in memory / .npy / flat): every one-operator program, and two-operator programs whose second
+    # operator is a scalar one (NumPy rounds every intermediate result to half precision; a float32 scalar widens the result)
+    scal = [a for a in alpha if a[0] not in ('cols', 'pos', 'neg')]
+    for be in ('array', 'npy', 'flat'):
+        for prog in [[a] for a in alpha] + [[a, b] for a in scal[::3] for b in scal[1::5]]:
+            idx += 1
+            if idx % ns == sh:
+                run_case({'kind': 'program', 'backend': be, 'dtype': 'float16', 'program': prog, 'rows': 'std'}, ctx)
     # long row-index arrays (> 1000 entries) that agree in their first and last entries, read one after the other through
     # a reader and its relatives
     if sh < 4:
@@ -371,6 +379,19 @@ def _big_index(case, ctx):
                                   (rh.exc if not rh.ok else (same(rh.value[rows_], Eh[rows_]) if call(lambda: rh.value[rows_]).ok else 'read raised')) or 'ok'),
                               {'backend': be, 'augmented_assignment': True}, tb=rh.tb or rg.tb)
                 return
+        # a recording of 12 files: row lists that touch only two or three files, far apart, through a reader and its relatives
+        if be == 'flat':
+            A3 = L.unique_cells(60, 2, np.dtype('int32'))
+            os.makedirs(os.path.join(d, 'many'))
+            rd3 = get_ephys_reader(L.write_flat(os.path.join(d, 'many'), A3, [5] * 12, ext='.bin'), sample_rate=100., dtype=A3.dtype, n_channels=2)
+            for name, r_, E in (('reader', rd3, A3), ('reader * 2', rd3 * 2, A3 * 2), ('reader[:, ::-1] - 1', rd3[:, ::-1] - 1, A3[:, ::-1] - 1)):
+                for ix in ([7, 42], [3, 58], [12, 44, 59], np.array([0, 41, 47]), [9, 10, 55]):
+                    ctx.count(1, key=hkey('many', name, repr(ix)), nontrivial=True, cell=(be, 'int32', 'many_files'))
+                    rr = call(lambda: r_[ix])
+                    if not rr.ok or same(rr.value, E[ix]):
+                        ctx.violation('value_mismatch' if rr.ok else 'index_raised', {'kind': 'big_index', 'backend': be, 'seed': case['seed'], 'many_files': name},
+                                      '12 files of 5 rows, (%s)[%r]: %s' % (name, ix, rr.exc if not rr.ok else same(rr.value, E[ix])), {'backend': be, 'many_files': True}, tb=rr.tb)
+                        return
         # reads of more than 65536 rows through expressions, also ones that keep a single channel (1-D results)
         if be in ('flat', 'array'):
             n2 = 70000
